@@ -38,6 +38,7 @@ package io
 //@   ensures[C11] fresh(result) && scanInv(result) && result.position == -1
 //@   ensures[C11] len(result.content) == rlen(content)
 //@   ensures[C11] forall i int :: 0 <= i && i < rlen(content) ==> result.content[i] == content[i]
+//@   ensures[C11] forall i int :: 0 <= i && i < len(result.content) ==> scalar(result.content[i])
 //@   assigns nothing
 //@   nopanic
 //
